@@ -1,0 +1,221 @@
+//go:build verif
+
+package goatlang
+
+import (
+	"fmt"
+	"reflect"
+	"sort"
+	"strings"
+	"sync"
+	"unsafe"
+)
+
+// Verification hooks (build tag "verif"). Nothing in this file changes what
+// the interpreter computes; it only lets an external harness bound, observe
+// and enumerate executions of the real code.
+
+// VerifBudgetMsg is the panic value used when an execution budget runs out.
+const VerifBudgetMsg = "verif: budget exhausted"
+
+// VerifStep is one dispatched instruction as seen by the trace hook.
+type VerifStep struct {
+	Frame uintptr // address of the first instruction of the running frame
+	PC    int     // index inside the frame
+	Depth int     // len(stack) - BaseN
+	BaseN int
+	Code  string
+	VMID  uintptr // identity of the VM value executing (one per run/Func)
+	Calls int     // len(backtrace)
+}
+
+// VerifCtx is the per-host-VM verification context.
+type VerifCtx struct {
+	Steps    int // instructions dispatched since the last reset
+	MaxSteps int // 0 = unlimited
+	MaxDepth int // 0 = unlimited (script call depth inside one VM value)
+	Trace    func(VerifStep)
+}
+
+type verifState struct{ ctx *VerifCtx }
+
+var verifCtxs sync.Map // *lookup -> *VerifCtx
+var verifNoCtx = &VerifCtx{}
+
+// VerifAttach installs a context on a VM (keyed by its globals table, which
+// all VM values derived from it by run/Func share).
+func VerifAttach(vm *VM, ctx *VerifCtx) { verifCtxs.Store(vm.globals, ctx) }
+
+// VerifDetach removes the context again.
+func VerifDetach(vm *VM) { verifCtxs.Delete(vm.globals) }
+
+func verifStep(v *VM) {
+	c := v.verifState.ctx
+	if c == nil {
+		if x, ok := verifCtxs.Load(v.globals); ok {
+			c = x.(*VerifCtx)
+		} else {
+			c = verifNoCtx
+		}
+		v.verifState.ctx = c
+	}
+	if c == verifNoCtx {
+		return
+	}
+	c.Steps++
+	if c.MaxSteps > 0 && c.Steps > c.MaxSteps {
+		panic(VerifBudgetMsg)
+	}
+	if c.MaxDepth > 0 && len(v.backtrace) > c.MaxDepth {
+		panic(VerifBudgetMsg)
+	}
+	if c.Trace != nil {
+		f := v.frame
+		c.Trace(VerifStep{
+			Frame: uintptr(unsafe.Pointer(&f.Codes[0])),
+			PC:    f.N,
+			Depth: len(v.stack) - f.BaseN,
+			BaseN: f.BaseN,
+			Code:  f.Codes[f.N].Code.String(),
+			VMID:  uintptr(unsafe.Pointer(v)),
+			Calls: len(v.backtrace),
+		})
+	}
+}
+
+// optimizer switch -----------------------------------------------------------
+
+var verifOptOff bool
+
+// VerifSetOptimize(false) makes compiler.optimize the identity (exactly what
+// Optimize:false does) for every later compilation in this process.
+func VerifSetOptimize(on bool) { verifOptOff = !on }
+func verifOptimizeOff() bool   { return verifOptOff }
+
+// canonical key order after a map compaction -------------------------------------
+
+func verifCanonKeysS(k *[]string)  { sort.Strings(*k) }
+func verifCanonKeysF(k *[]float64) { sort.Float64s(*k) }
+
+// hash table wrapper ---------------------------------------------------------
+
+// VerifIntMap exposes the unexported robin-hood table.
+type VerifIntMap struct{ m intMap }
+
+func VerifNewIntMap(alloc int) *VerifIntMap    { return &VerifIntMap{m: newIntMap(alloc)} }
+func (m *VerifIntMap) Set(k int, v Value)      { m.m.Set(k, v) }
+func (m *VerifIntMap) Assign(k int, v Value)   { m.m.Assign(k, v) }
+func (m *VerifIntMap) Get(k int) (Value, bool) { return m.m.Get(k) }
+func (m *VerifIntMap) Delete(k int)            { m.m.Delete(k) }
+func (m *VerifIntMap) Len() int                { return m.m.Len() }
+func (m *VerifIntMap) Copy() *VerifIntMap      { return &VerifIntMap{m: m.m.Copy()} }
+func (m *VerifIntMap) Dump() string {
+	return verifDumpAny(reflect.ValueOf(&m.m).Elem(), map[uintptr]int{})
+}
+func (m *VerifIntMap) Size() int { return m.m.size }
+func VerifIntMapOf(v Value) (fields, methods *VerifIntMap) {
+	s := v.value.(*structT)
+	return &VerifIntMap{m: s.Fields}, &VerifIntMap{m: *s.Methods}
+}
+
+// state dump -----------------------------------------------------------------
+
+// VerifDump renders the complete implementation state of the given values by
+// reflection (all fields, including unexported ones); pointers and backing
+// arrays are named in order of first appearance, so two dumps are equal iff
+// the object graphs are equal up to renaming of addresses. It is used only to
+// merge states during explicit-state search, never as an oracle.
+func VerifDump(vals ...Value) string {
+	ids := map[uintptr]int{}
+	var p []string
+	for _, v := range vals {
+		p = append(p, verifDumpAny(reflect.ValueOf(v), ids))
+	}
+	return strings.Join(p, " | ")
+}
+
+func verifDumpAny(v reflect.Value, ids map[uintptr]int) string {
+	switch v.Kind() {
+	case reflect.Invalid:
+		return "<invalid>"
+	case reflect.Interface:
+		if v.IsNil() {
+			return "nil"
+		}
+		return verifDumpAny(v.Elem(), ids)
+	case reflect.Ptr:
+		if v.IsNil() {
+			return "nil"
+		}
+		a := v.Pointer()
+		if id, ok := ids[a]; ok {
+			return fmt.Sprintf("*#%d", id)
+		}
+		id := len(ids)
+		ids[a] = id
+		return fmt.Sprintf("*#%d=%s", id, verifDumpAny(v.Elem(), ids))
+	case reflect.Struct:
+		var p []string
+		t := v.Type()
+		for i := 0; i < v.NumField(); i++ {
+			p = append(p, t.Field(i).Name+":"+verifDumpAny(v.Field(i), ids))
+		}
+		return t.Name() + "{" + strings.Join(p, " ") + "}"
+	case reflect.Slice:
+		if v.IsNil() {
+			return "nilslice"
+		}
+		// All slices of one backing array share the address just past its
+		// last element (two-index slicing keeps cap reaching the array end),
+		// so that address identifies the array and cap gives the offset.
+		id := -1
+		if v.Cap() > 0 {
+			end := v.Slice(0, v.Cap()).Index(v.Cap()-1).Addr().Pointer() + v.Type().Elem().Size()
+			if x, ok := ids[end]; ok {
+				id = x
+			} else {
+				id = len(ids)
+				ids[end] = id
+			}
+		}
+		var p []string
+		for i := 0; i < v.Len(); i++ {
+			p = append(p, verifDumpAny(v.Index(i), ids))
+		}
+		return fmt.Sprintf("[arr#%d len=%d cap=%d: %s]", id, v.Len(), v.Cap(), strings.Join(p, ","))
+	case reflect.Map:
+		if v.IsNil() {
+			return "nilmap"
+		}
+		var p []string
+		it := v.MapRange()
+		for it.Next() {
+			p = append(p, fmt.Sprintf("%v=>%s", it.Key(), verifDumpAny(it.Value(), ids)))
+		}
+		sort.Strings(p)
+		return "map{" + strings.Join(p, ",") + "}"
+	case reflect.Func:
+		if v.IsNil() {
+			return "nilfunc"
+		}
+		return "func"
+	case reflect.Float32, reflect.Float64:
+		return fmt.Sprintf("%v", v.Float())
+	case reflect.Int, reflect.Int8, reflect.Int16, reflect.Int32, reflect.Int64:
+		return fmt.Sprintf("%d", v.Int())
+	case reflect.Uint, reflect.Uint8, reflect.Uint16, reflect.Uint32, reflect.Uint64, reflect.Uintptr:
+		return fmt.Sprintf("%d", v.Uint())
+	case reflect.String:
+		return fmt.Sprintf("%q", v.String())
+	case reflect.Bool:
+		return fmt.Sprintf("%v", v.Bool())
+	default:
+		return fmt.Sprintf("<%s>", v.Kind())
+	}
+}
+
+// VerifTypeOf returns the full dynamic type tag of a value as __type prints it.
+func VerifTypeOf(vm *VM, v Value) string { return v.t.str(vm.globals) }
+
+// VerifRawType returns the raw tag (for distinguishing untyped constants).
+func VerifRawType(v Value) int { return int(v.t) }
